@@ -70,7 +70,24 @@ def run(tier, seed, open_findings):
             if viol or outcome.startswith('OTHER'):
                 fails.append(dict(case=dict(mode=mode, mechanism=mech, spelling=sp, location=loc.replace(root, '<root>')), observed=dict(outcome=outcome, fetched=[(k, p.replace(root, '<root>')) for k, p in viol]),
                                   required='no fetch outside the allowed class; only library exceptions'))
-        return [result('C12.confinement_catalogue', f'5 allow modes x 4 mechanisms x {len(SPELL)} location spellings, audit hook on open + stub http opener', n, fails, exhaustive=True,
+        # document-level API: the schema is built by the API itself from the instance's location hint, with the caller's allow mode
+        hint_doc = os.path.join(base, 'hinted.xml')
+        for mode, (sp, loc) in itertools.product(['all', 'none', 'local', 'remote', 'sandbox'], SPELL.items()):
+            n += 1
+            open(hint_doc, 'w').write(f'<x xmlns:xsi="http://www.w3.org/2001/XMLSchema-instance" xsi:noNamespaceSchemaLocation="{loc}"/>')
+            _events.clear(); outcome = 'ok'
+            try:
+                opener = urllib.request.build_opener(Stub)
+                xmlschema.is_valid(hint_doc, allow=mode, base_url=base, opener=opener)
+            except XMLSchemaException as e: outcome = type(e).__name__
+            except Exception as e: outcome = 'OTHER:' + type(e).__name__ + ': ' + str(e)[:80]
+            own = {os.path.realpath(hint_doc)}
+            viol = [(k, p) for k, p in _events if not (k == 'open' and p in own) and not allowed(mode, 'open' if k == 'open' else 'remote', p, base)]
+            if any(k == 'open' and p in own for k, p in _events) and not allowed(mode, 'open', hint_doc, base): viol.append(('open', 'INSTANCE'))
+            if viol or outcome.startswith('OTHER'):
+                fails.append(dict(case=dict(mode=mode, mechanism='document-api-hint', spelling=sp, location=loc.replace(root, '<root>')),
+                                  observed=dict(outcome=outcome, fetched=[(k, p.replace(root, '<root>')) for k, p in viol]), required='no fetch outside the allowed class; only library exceptions'))
+        return [result('C12.confinement_catalogue', f'5 allow modes x 5 mechanisms (include, import, redefine, instance hint on a built schema, instance hint through the package-level API) x {len(SPELL)} location spellings, audit hook on open + stub http opener', n, fails, exhaustive=True,
                        samples=[dict(mode='sandbox', mechanism='include', location='../sand_evil/inc.xsd')])]
     finally:
         _root[0] = None
